@@ -40,6 +40,7 @@ def l31(kind, q):
         c = proto.mk_server_side(clock=clock)
     else:
         c = proto.mk_base(server=bool(symbool('isServer')), clock=clock)
+    proto.havoc_counters(c)
     c.status = [Status.CONNECTED, Status.CONNECTING, Status.DISCONNECTED][choose(3, 'status')]
     c.last_send_time = last
     c.last_send_keep_alive_time = symreal('last_ka', lo=-1, hi=now)
